@@ -22,6 +22,10 @@ type lruScenario struct {
 	Ops      []lruOp `json:"ops"`
 	// concurrent mode (engine B): one operation list per client goroutine
 	Conc [][]lruConcOp `json:"conc,omitempty"`
+	// NoStamps: the client goroutines share nothing with each other or the harness (no global event counter), so
+	// that the harness adds no happens-before edge between two cache calls; decided by the race detector and
+	// an attribution oracle instead of porcupine.
+	NoStamps bool `json:"no_stamps,omitempty"`
 }
 
 // lruModel: most-recently-used first.
@@ -81,6 +85,7 @@ func genLRU(seed uint64, tier string) any {
 	sc := &lruScenario{}
 	if r.Chance(1, 16) {
 		genLRUConc(r, sc)
+		sc.NoStamps = r.Chance(1, 2)
 		return sc
 	}
 	switch r.Intn(10) {
